@@ -420,6 +420,15 @@ func (VUByte) UnmarshalJSON(b []byte) error {
 }
 func (v VUByte) MarshalJSON() ([]byte, error) { return []byte(strconv.Itoa(int(v) + 1)), nil }
 
+// byte-kind type with MarshalText on the value and MarshalJSON on the pointer receiver: slice elements are
+// addressable, so MarshalJSON applies there
+type UByteVTPM uint8
+
+func (v UByteVTPM) MarshalText() ([]byte, error) { return []byte("text" + strconv.Itoa(int(v))), nil }
+func (v *UByteVTPM) MarshalJSON() ([]byte, error) {
+	return []byte(`"json` + strconv.Itoa(int(*v)) + `"`), nil
+}
+
 // integer kind with MarshalJSON on the value receiver (map keys are still written in decimal)
 type VMInt int
 
